@@ -2,7 +2,7 @@
 From Coq Require Import List NArith Bool.
 Import ListNotations.
 From Rustun Require Import Base.Tlv Codec.EncodeInto Codec.EncodeMsg Codec.Wire Codec.AttrValue Codec.WireFull Codec.Message
-                           Proofs.AttrValueProofs Proofs.MessageProofs.
+                           Proofs.AttrValueProofs Proofs.MessageProofs Proofs.QuotedTrimProofs Proofs.QuotedCtorProofs.
 Open Scope N_scope.
 
 (* one attribute value: under the documented limits (av_wf: string limits 509 / 763, USERNAME 1..508 printable ASCII,
@@ -31,18 +31,54 @@ Theorem C01_message_roundtrip : forall (m:tmsg) (l:list (N * aval)) (buf:bytes),
 Proof. exact MessageProofs.roundtrip. Qed.
 Print Assumptions C01_message_roundtrip.
 
-(* the quoted-string CONSTRUCTORS (not the codec) can produce a non-canonical value: Nonce::new of  a b c backslash dquote  stores  a b c backslash,
-   which encodes but cannot be decoded (known finding D8, class quoted-ctor-noncanonical); the theorem above is for
-   canonical values (av_quoted_ok), the listed class is exactly the constructor outputs that are not *)
+(* the quoted-string CONSTRUCTORS (Nonce::new, Realm::new: strings.rs formatted_quoted_string_from) — see the end of the file:
+   since the repair of defect D8 every value they accept is canonical, i.e. one of the values the theorems above speak of *)
 Example C01_example_xor_mapped_address :
   av_enc_attr ([0;1;0;0;33;18;164;66] ++ [183;231;167;1;188;52;214;134;250;135;223;174]) 32 (AvAddr false 32853 [192;0;2;1]) 100
   = VOk [0;1;161;71;225;18;166;67].
 Proof. vm_compute. reflexivity. Qed.
 
-(* the constructor defect D8 as a theorem about the faithful model: there is an accepted input whose stored value does
-   not survive the round trip (a b c backslash dquote: trimming removes the second character of the quoted-pair) *)
-Example C01_quoted_ctor_refuted :
-  exists s q, ctor_quoted s = VOk q /\ quoted_roundtrips q = false.
+(* ------------------------------------------------------------------------------------------------ the constructors *)
+(* formatted_quoted_string_from with the repaired skip_trailing_characteres (a removable character preceded by an odd
+   number of backslashes is the second half of a quoted-pair and ends the trimming): for EVERY str it accepts — a
+   quoted-text or a quoted-string of the grammar, of any length, any characters — the result is a quoted-text with nothing
+   left to trim, formatting it again returns it, and `impl Decode for QuotedString` returns it unchanged *)
+Theorem C01_formatted_canonical : forall s cps q, av_utf8 s = Some cps -> av_formatted s cps = VOk q ->
+  exists cq, av_utf8 q = Some cq /\ av_quoted_text cq = true /\ av_trimmed cq = true /\
+             av_formatted q cq = VOk q /\ av_dec_quoted_string q = VOk q.
+Proof. exact QuotedTrimProofs.formatted_fixpoint. Qed.
+Print Assumptions C01_formatted_canonical.
+
+(* Nonce::new (ty = 21) and Realm::new (ty = 20; ASCII realms, where the PRECIS step is modelled): every accepted input
+   stores a value that satisfies the quoted-text grammar, has nothing to trim, is at most 509 bytes long, is a fixed point
+   of the formatting and of the constructor, decodes to itself and so survives encode + decode — no exception class *)
+Theorem C01_ctor_canonical : forall ty s q, ctor_of ty s = VOk q ->
+  exists cq, av_utf8 q = Some cq /\ av_quoted_text cq = true /\ av_trimmed cq = true /\ len q <= 509 /\
+             av_formatted q cq = VOk q /\ av_dec_quoted_string q = VOk q /\ quoted_roundtrips q = true /\
+             ctor_quoted q = VOk q.
+Proof. exact QuotedCtorProofs.ctor_full. Qed.
+Print Assumptions C01_ctor_canonical.
+
+(* hence the stored value is within the documented limits of REALM / NONCE, and C01_value_roundtrip /
+   C01_message_roundtrip apply to it *)
+Theorem C01_ctor_within_limits : forall ty s q, ty = 20 \/ ty = 21 -> bytes_ok s = true -> ctor_of ty s = VOk q ->
+  av_wf ty (AvQuoted q) = true.
+Proof. exact QuotedCtorProofs.ctor_wf. Qed.
+Print Assumptions C01_ctor_within_limits.
+
+(* the class of the former known finding D8 (accepted by the constructor, lost by the round trip) is empty *)
+Theorem C01_ctor_class_empty : forall ty s, ctor_class ty s = 0.
+Proof. exact QuotedCtorProofs.ctor_class_zero. Qed.
+Print Assumptions C01_ctor_class_empty.
+
+(* the defect D8 as it was, about the trimming before the repair (av_skip_trail_pinned): there is an accepted input whose
+   stored value does not survive the round trip (a b c backslash dquote: the old trimming removed the second character of
+   the quoted-pair); the repaired trimming keeps the pair *)
+Example C01_quoted_ctor_pinned_refuted :
+  exists s q, ctor_quoted_pinned s = VOk q /\ quoted_roundtrips q = false.
 Proof. exists [97;98;99;92;34], [97;98;99;92]. vm_compute. split; reflexivity. Qed.
+Example C01_quoted_ctor_repaired :
+  ctor_quoted [97;98;99;92;34] = VOk [97;98;99;92;34] /\ quoted_roundtrips [97;98;99;92;34] = true.
+Proof. vm_compute. split; reflexivity. Qed.
 Example C01_quoted_ctor_ok : ctor_quoted [34;97;98;99;34] = VOk [97;98;99] /\ quoted_roundtrips [97;98;99] = true.
 Proof. vm_compute. split; reflexivity. Qed.
